@@ -98,6 +98,12 @@ def sheet_prefixes(book, sheet, directory, rnd):
     """(class, prefix text, context) — every one denotes (directory, book, sheet)"""
     q = sheet.replace("'", "''")
     plain_ok = sheet.replace('_', 'a').replace('.', 'a').isalnum() and not sheet[0].isdigit() and sheet.isascii()
+    if not book:
+        # no workbook in the context: the identifier is the sheet name alone, quoted when it is not a plain word
+        out = [('implicit', '', {'sheet': sheet}), ("'quoted'", "'%s'!" % q, {'sheet': 'OTHER'}), ("'quoted-case'", "'%s'!" % q.swapcase(), {})]
+        if plain_ok:
+            out.append(('plain', '%s!' % sheet, {'sheet': 'OTHER'}))
+        return out
     ctx_full = {'directory': directory, 'filename': book, 'sheet': sheet}
     out = [('implicit', '', ctx_full)]
     out.append(("'quoted'", "'%s'!" % q, {'directory': directory, 'filename': book, 'sheet': 'OTHER'}))
@@ -145,7 +151,9 @@ def check(run):
                    ('book.xlsx', 'My Sheet', ''), ('book.xlsx', 'data_2.x', ''), ('b.xlsx', 'S', 'sub/dir'),
                    ('book.xlsx', 'Été', ''), ('book.xlsx', "It's", ''), ('book.xlsx', 'a-b (c)', ''),
                    # workbook names that begin with digits (a bare number is a link index, these are file names)
-                   ('2024.xlsx', 'Sheet1', 'dirA'), ('2024.xlsx', 'Sheet1', 'dirB'), ('1q.xlsx', 'S', ''), ('3 d.xlsx', 'Sheet1', '')]
+                   ('2024.xlsx', 'Sheet1', 'dirA'), ('2024.xlsx', 'Sheet1', 'dirB'), ('1q.xlsx', 'S', ''), ('3 d.xlsx', 'Sheet1', ''),
+                   # no workbook at all: only the sheet name stands in the identifier
+                   ('', 'Sheet1', ''), ('', 'A-B', ''), ('', '1st', ''), ('', 'A(1)', ''), ('', 'data_2.x', ''), ('', 'My Sheet', ''), ('', 'A+B', '')]
     rects = []
     rows_pool = [1, 2, 9, 10, 99, 100, 1000, 65536, MAXROW - 1]
 
